@@ -617,7 +617,11 @@ class Path:
         if self.inv_post and self.selfname and fc.kind != "init":
             for x, l in self.eng.invariants_of(self.concrete):
                 self.oblige("%s/inv-preserve-on-raise[%s]:%s" % (q, e.name, l), self.ev_spec(x, sv).t, "inv", e.line)
-        self.check_frame(e.line)
+        if all(not ens for _, _, ens, _ in clauses):
+            # a raises clause without ensures promises callers an UNCHANGED state: check exactly that (empty frame)
+            self.check_frame(e.line, unchanged_label="raises[%s]:state-unchanged" % e.name)
+        else:
+            self.check_frame(e.line)
 
     def modifies_sets(self, fc, env_for_locs):
         """-> (whole_fields:set of heap keys, cells: dict heap key -> list of ref terms)"""
@@ -654,9 +658,9 @@ class Path:
             return
         raise StaleContract("modifies: cannot parse %s" % loc)
 
-    def check_frame(self, line):
+    def check_frame(self, line, unchanged_label=None):
         fc = self.fc
-        whole, cells = self.modifies_sets(fc, self.entry)
+        whole, cells = (set(), {}) if unchanged_label else self.modifies_sets(fc, self.entry)
         o = z3.Int("o!frame")
         for key, arr in self.env.heap.items():
             arr0 = self.entry.heap[key]
@@ -667,7 +671,7 @@ class Path:
                 cond.append(o != self.env.locals[self.selfname].t)
             for r in cells.get(key, []):
                 cond.append(o != r)
-            self.oblige("%s/frame:%s.%s" % (fc.qualname, key[0], key[1]),
+            self.oblige("%s/%s:%s.%s" % (fc.qualname, unchanged_label or "frame", key[0], key[1]),
                         z3.ForAll([o], z3.Implies(z3.And(*cond), z3.Select(arr, o) == z3.Select(arr0, o))), "frame", line)
 
     # ------------------------------------------------------------------ ghost statements
